@@ -35,6 +35,9 @@ func runC14(r *engine.Run) {
 	r.Rule("DOM-size", "see C01: Insert stores a private snapshot of the marshalled value")
 	r.Rule("CLONE-deep", "see C07: Clone() of every node type is a deep copy (the codec round trip), never a value that shares path/key/value memory with the receiver - FRESH-node treats Clone() results as fresh, and an in-place append onto a shallow copy writes into the store's object")
 	r.Rule("DOM-cancel", "see C05: AddChange removes the new node's hash from the dead set on every path (a chain A -> B -> A that leaves A listed as deleted makes a save with deletes, or a merge into the parent, remove a node the saved root refers to: the trie read back no longer re-computes to its root)")
+	r.Rule("WHO-limit", "see C17: the value size limit is applied to the inserted value only - a decoder that cuts a record at the same constant truncates nodes whose value is close to the limit: their hash and encoding change on the round trip")
+	r.Rule("WHO-tombstones", "see C03: the layered store's lookups never consult its delete marks (a node of a saved version that a later version replaced is still stored under its hash below and must stay readable through the layered store)")
+	r.Rule("CLONE-complete", "in the CloneNode of every node type every field of the struct is written on the copy (stored directly or element-wise, or written by a method called on the copy): the stores keep and hand out CloneNode copies, so a field the copy lacks is zero in every node that went through a store")
 	r.NotDec = append(r.NotDec, "byte-exact round trip for every value (value-level)")
 	orderStamp(r, "KEY-own-hash")
 	keyOwnHash(r)
@@ -52,6 +55,9 @@ func runC14(r *engine.Run) {
 	domSize(r)
 	cloneDeep(r)
 	domCancel(r)
+	whoLimit(r, "WHO-limit")
+	whoTombstones(r, "WHO-tombstones")
+	cloneComplete(r, "CLONE-complete")
 }
 
 func keyOwnHash(r *engine.Run) {
